@@ -4,6 +4,7 @@ package core
 import (
 	"fmt"
 	"hash/fnv"
+	"os"
 	"sort"
 )
 
@@ -43,7 +44,17 @@ func (r *RunResult) Violate(prop, kind string, step int, format string, a ...any
 
 func (r *RunResult) Probe(name string)         { r.Probes[name]++ }
 func (r *RunResult) Fault(name string)         { r.Faults[name]++ }
-func (r *RunResult) Tracef(f string, a ...any) { r.Trace = append(r.Trace, fmt.Sprintf(f, a...)) }
+// TraceSink, when set (VERIF_TRACE_LOG), receives every trace line as it is produced, so that the
+// decoded trace of a run that kills its process can still be put into the replay file.
+var TraceSink *os.File
+
+func (r *RunResult) Tracef(f string, a ...any) {
+	l := fmt.Sprintf(f, a...)
+	r.Trace = append(r.Trace, l)
+	if TraceSink != nil {
+		fmt.Fprintln(TraceSink, l)
+	}
+}
 func (r *RunResult) Has(prop string) *Violation {
 	for i := range r.Violations {
 		if r.Violations[i].Prop == prop {
